@@ -10,6 +10,7 @@
    modes:  replay            script on stdin (TLC-generated behaviours / replay files)
            random seed n     n seeded random long executions (up to 48 frames)
            pad seed n        n seeded pad/unpad cases around the boundary amounts, in place
+           padx seed n       n seeded opus_packet_pad_impl cases that add extension lists while padding
            ms seed n         n seeded multistream pad/unpad cases, 1..8 streams
            audio seed n      encode real audio, pad/unpad, decode with independent decoders */
 #include "hx_common.h"
@@ -160,18 +161,21 @@ static const int SZS[] = {0, 1, 2, 3, 5, 10, 40, 250, 251, 252, 253, 254, 255, 2
 static int pick_size(hx_rng *r, int small) { if (small || hx_u(r, 3)) return hx_range(r, 0, 12); return SZS[hx_u(r, sizeof SZS / sizeof SZS[0])]; }
 static const int PADAMTS[] = {1, 2, 3, 253, 254, 255, 256, 257, 509, 510, 511, 512, 764, 765, 766};
 
-/* random valid packet of configuration toc6 with at most maxn frames; padkind: -1 random */
+/* random valid packet of configuration toc6 with at most maxn frames; with g_extbias a third of the
+   packets are forced to carry extension padding */
+static int g_extbias;
 static void random_packet(hx_rng *r, pkt_t *p, int toc6, int maxn, int sd, int *fidctr, int extok)
 {
-   int code = hx_u(r, 4), n, sizes[48], i, vbr = 0, haspad = 0, npad = 0; static unsigned char pad[4096];
+   int code = hx_u(r, 4), n, sizes[48], i, vbr = 0, haspad = 0, npad = 0, force = g_extbias && extok && hx_u(r, 3) == 0; static unsigned char pad[4096];
+   if (force) code = 3;
    if (maxn < 2 && (code == 1 || code == 2)) code = hx_u(r, 2) ? 0 : 3;
    if (code == 0) n = 1; else if (code < 3) n = 2;
    else { n = hx_u(r, 6) ? hx_range(r, 1, maxn < 6 ? maxn : 6) : hx_range(r, 1, maxn); }
    if (code == 1 || (code == 3 && !(vbr = hx_u(r, 2)))) { int s = pick_size(r, n > 12); for (i = 0; i < n; i++) sizes[i] = s; }
    else { for (i = 0; i < n; i++) sizes[i] = pick_size(r, n > 12); if (code == 3 && hx_u(r, 4) == 0) for (i = 1; i < n; i++) sizes[i] = sizes[0]; }
    if (code == 2 && hx_u(r, 4) == 0) sizes[1] = sizes[0];
-   if (code == 3 && hx_u(r, 2)) {
-      int kind = hx_u(r, 10); haspad = 1;
+   if (code == 3 && (force || hx_u(r, 2))) {
+      int kind = force ? 5 : (int)hx_u(r, 10); haspad = 1;
       if (kind < 3) { npad = hx_u(r, 2) ? (int)hx_u(r, 6) : PADAMTS[hx_u(r, 15)]; memset(pad, 0, npad); }             /* zeros */
       else if (kind < 8 && extok) npad = build_exts(r, n, pad, sizeof pad);                                              /* extensions */
       else if (kind == 8 && extok) { npad = hx_range(r, 1, 6); for (i = 0; i < npad; i++) pad[i] = (unsigned char)hx_u(r, 256); } /* arbitrary bytes */
@@ -262,10 +266,36 @@ static int ev_out(int all, int b, int e, int m) {
    hx_buf_free(&o);
    return ret;
 }
-/* measure the size with an ample buffer, then probe the exact fit and one byte less */
+/* opus_repacketizer_out_range_impl called directly: self-delimited output and/or padding to maxlen */
+static int ev_outx(int b, int e, int m, int sd, int pad) {
+   hx_buf o; int ret, can, consumed = 0;
+   if (m < 0) m = 0;
+   o = hx_buf_new((size_t)m, 0xEE);
+   hx_arm(20);
+   ret = opus_repacketizer_out_range_impl(g_rp, b, e, o.p, m, sd, pad, NULL, 0);
+   hx_disarm();
+   can = hx_buf_ok(&o);
+   js_open("outx"); js_int("x", g_exec); js_int("b", b); js_int("e", e); js_int("m", m); js_int("sd", sd); js_int("pad", pad); js_int("ret", ret);
+   js_int("nb", opus_repacketizer_get_nb_frames(g_rp)); js_int("can", can);
+   if (ret > 0 && ret <= m) j_out("", o.p, ret, sd, &consumed);
+   else { printf(",\"h\":[],\"pr\":0,\"fr\":[]"); j_pad("", o.p, 0); }
+   js_int("ko", consumed); js_close();
+   hx_buf_free(&o);
+   return ret;
+}
+static const int XDELTAS[] = {0, 1, 2, 3, 253, 254, 255, 256, 257, 510, 511, 512};
+/* measure the size with an ample buffer, then probe the exact fit and one byte less; every call also
+   takes a turn at the internal entry point (self-delimited and/or padded to exactly maxlen) */
+static unsigned g_turn;
 static void ev_probe(int b, int e) {
-   int r = ev_out(0, b, e, MAXPK);
+   int r = ev_out(0, b, e, MAXPK), t = (int)(g_turn++ % 6);
    if (r > 0) { ev_out(0, b, e, r); ev_out(0, b, e, r - 1); }
+   if (r > 0) {
+      int sd = t & 1, d = XDELTAS[(g_turn * 7u) % 12u], r0;
+      if (t < 2) { r0 = ev_outx(b, e, MAXPK, sd, 0); if (r0 > 0) { ev_outx(b, e, r0, sd, 0); ev_outx(b, e, r0 - 1, sd, 0); } }
+      else if (t < 4) { r0 = r + (sd ? 1 : 0); ev_outx(b, e, r0 + d, sd, 1); ev_outx(b, e, r0 - 1, sd, 1); }
+      else { ev_outx(b, e, r + 2 + d, 1, 1); ev_outx(b, e, r + 1, sd, 1); }
+   }
 }
 
 /* ---------- replay of scripts ---------- */
@@ -293,6 +323,7 @@ static void replay(void)
       else if (c == 'C') { int id = atoi(q + 1); if (!g_rp) ev_new(); if (id >= 0 && id < MAXLIB && g_lib[id].b) ev_cat(&g_lib[id], id); }
       else if (c == 'O') { int b, e, m; q++; b = (int)strtol(q, &q, 10); e = (int)strtol(q, &q, 10); m = (int)strtol(q, &q, 10); if (!g_rp) ev_new(); ev_out(0, b, e, m); }
       else if (c == 'A') { int m = atoi(q + 1); if (!g_rp) ev_new(); ev_out(1, 0, opus_repacketizer_get_nb_frames(g_rp), m); }
+      else if (c == 'S') { int b, e, m, sd, pad; q++; b = (int)strtol(q, &q, 10); e = (int)strtol(q, &q, 10); m = (int)strtol(q, &q, 10); sd = (int)strtol(q, &q, 10); pad = (int)strtol(q, &q, 10); if (!g_rp) ev_new(); ev_outx(b, e, m, sd, pad); }
       else if (c == 'Q') { int b, e; q++; b = (int)strtol(q, &q, 10); e = (int)strtol(q, &q, 10); if (!g_rp) ev_new(); ev_probe(b, e); }
    }
 }
@@ -328,7 +359,8 @@ static void random_exec(uint64_t seed)
          if (nb == 0 || hx_u(&r, 15) == 0) { b = hx_range(&r, -1, nb + 1); e = hx_range(&r, -1, nb + 2); }
          else if (k < 3) { b = 0; e = nb; }
          else { b = hx_u(&r, nb); e = hx_range(&r, b + 1, nb); if (hx_u(&r, 3) == 0) e = b + 1 + (int)hx_u(&r, (nb - b) < 3 ? (nb - b) : 3); if (e > nb) e = nb; }
-         if (k == 0) ev_out(1, 0, nb, hx_u(&r, 2) ? 1277 * (nb > 0 ? nb : 1) : MAXPK);
+         if (hx_u(&r, 6) == 0) ev_outx(b, e, hx_u(&r, 3) ? hx_range(&r, 0, 2600) : MAXPK, (int)hx_u(&r, 2), (int)hx_u(&r, 2));
+         else if (k == 0) ev_out(1, 0, nb, hx_u(&r, 2) ? 1277 * (nb > 0 ? nb : 1) : MAXPK);
          else if (k < 6) ev_probe(b, e);
          else { m = k == 6 ? 1277 * (e - b > 0 ? e - b : 1) : k == 7 ? (int)hx_u(&r, 40) : k == 8 ? 1276 * (e - b > 0 ? e - b : 1) : hx_range(&r, 0, 3000); ev_out(0, b, e, m); }
       }
@@ -398,6 +430,90 @@ static void pad_cases(uint64_t seed, int n)
    }
 }
 
+
+/* ---------- pad that adds extensions: opus_packet_pad_impl ---------- */
+#define MAXX 24
+typedef struct { int n; opus_extension_data x[MAXX]; unsigned char *store; } xlist_t;
+static const int XLENS[] = {0, 1, 2, 3, 10, 253, 254, 255, 256, 257, 509, 510, 511};
+static void xlist_add(xlist_t *l, hx_rng *r, int id, int frame, int len) {
+   unsigned char *d; int i;
+   if (l->n >= MAXX) return;
+   d = l->store + 600 * l->n;
+   for (i = 0; i < len; i++) d[i] = (unsigned char)hx_u(r, 256);
+   l->x[l->n].id = id; l->x[l->n].frame = frame; l->x[l->n].data = d; l->x[l->n].len = len; l->n++;
+}
+/* families: single / lacing boundaries / repeat-eligible (same id in every frame) / mixed order / illegal */
+static void make_xlist(hx_rng *r, xlist_t *l, int nfr)
+{
+   int fam = hx_u(r, 10), f, k;
+   l->n = 0;
+   if (nfr < 1) nfr = 1;
+   if (fam == 0) return;                                                            /* nothing added */
+   if (fam == 1) xlist_add(l, r, hx_range(r, 3, 31), hx_u(r, nfr), hx_u(r, 2));      /* one short */
+   else if (fam == 2) xlist_add(l, r, hx_range(r, 32, 127), hx_u(r, nfr), XLENS[hx_u(r, 13)]);   /* one long, lacing boundary */
+   else if (fam == 3) { int id = hx_range(r, 32, 127); for (f = 0; f < nfr && f < 12; f++) xlist_add(l, r, id, f, hx_u(r, 3) ? hx_range(r, 0, 6) : XLENS[hx_u(r, 13)]); }  /* repeat-eligible long */
+   else if (fam == 4) { int id = hx_range(r, 3, 31), L = hx_u(r, 2); for (f = 0; f < nfr && f < 12; f++) xlist_add(l, r, id, f, L); if (hx_u(r, 2)) xlist_add(l, r, 40, nfr - 1, hx_range(r, 0, 5)); }  /* repeat-eligible short (+ tail) */
+   else if (fam == 5) { int id1 = hx_range(r, 3, 31), id2 = hx_range(r, 32, 127); for (f = 0; f < nfr && f < 8; f++) { xlist_add(l, r, id1, f, 1); xlist_add(l, r, id2, f, hx_range(r, 0, 4)); } }  /* two repeated per frame */
+   else if (fam < 9) { k = hx_range(r, 1, 6); while (k--) { if (hx_u(r, 2)) xlist_add(l, r, hx_range(r, 3, 31), hx_u(r, nfr), hx_u(r, 2)); else xlist_add(l, r, hx_range(r, 32, 127), hx_u(r, nfr), hx_u(r, 4) ? hx_range(r, 0, 9) : XLENS[hx_u(r, 13)]); } }  /* any order of frames */
+   else {                                                                           /* illegal arguments */
+      int w = hx_u(r, 5);
+      if (hx_u(r, 2)) xlist_add(l, r, hx_range(r, 3, 31), hx_u(r, nfr), 1);
+      if (w == 0) xlist_add(l, r, hx_range(r, 3, 127), nfr + (int)hx_u(r, 2), 0);    /* frame >= n */
+      else if (w == 1) xlist_add(l, r, hx_range(r, 3, 127), -1, 0);                  /* negative frame */
+      else if (w == 2) xlist_add(l, r, hx_range(r, 0, 2), 0, 0);                     /* reserved id */
+      else if (w == 3) xlist_add(l, r, 128 + (int)hx_u(r, 3), 0, 0);                 /* id out of range */
+      else xlist_add(l, r, hx_range(r, 3, 31), 0, 2);                                /* short extension with 2 bytes */
+   }
+}
+static int ev_padx(const pkt_t *p, int new_len, int pad, const xlist_t *l)
+{
+   size_t cap = (size_t)(new_len > p->len ? new_len : p->len); hx_buf o; int ret, can, i, outlen;
+   o = hx_buf_new(cap, 0xEE);
+   if (p->len > 0) memcpy(o.p, p->b, p->len);
+   hx_arm(20); ret = opus_packet_pad_impl(o.p, p->len, new_len, pad, l->x, l->n); hx_disarm();
+   can = hx_buf_ok(&o);
+   js_open("padx"); js_int("x", g_exec); j_bytes("h", p->b, hdr_extent(p->b, p->len)); js_int("n", p->len);
+   if (p->valid) { j_in_table("fr", p); j_pad("", p->b + p->padat, p->npad); } else { printf(",\"fr\":[]"); j_pad("", p->b, 0); }
+   js_int("nn", new_len); js_int("pad", pad);
+   printf(",\"xl\":[");
+   for (i = 0; i < l->n; i++) { int j; printf("%s[%d,%d,[", i ? "," : "", l->x[i].id, l->x[i].frame); for (j = 0; j < l->x[i].len; j++) printf(j ? ",%d" : "%d", l->x[i].data[j]); printf("]]"); }
+   printf("]");
+   js_int("ret", ret); js_int("can", can);
+   outlen = ret > 0 ? ret : 0;
+   if (outlen > 0 && outlen <= (int)cap) j_out("o", o.p, outlen, 0, NULL);
+   else { printf(",\"oh\":[],\"opr\":0,\"ofr\":[]"); j_pad("o", p->b, 0); }
+   js_close();
+   hx_buf_free(&o);
+   return ret;
+}
+static void padx_cases(uint64_t seed, int n)
+{
+   int it; xlist_t l; l.store = (unsigned char *)malloc(600 * MAXX);
+   g_extbias = 1;
+   for (it = 0; it < n; it++) {
+      hx_rng r; pkt_t p; int fidctr, toc6, r0, k, d;
+      r.s = seed + (uint64_t)it; g_exec = (long)(seed + (uint64_t)it);
+      fidctr = (int)hx_u(&r, 60000); toc6 = (int)hx_u(&r, 64);
+      random_packet(&r, &p, toc6, hx_u(&r, 6) ? 5 : frames_per_120ms(toc6), 0, &fidctr, 1);
+      k = hx_u(&r, 16);
+      if (k == 0) corrupt_packet(&r, &p, 0, &fidctr);
+      make_xlist(&r, &l, p.valid ? p.nfr : 1);
+      d = XDELTAS[hx_u(&r, 12)];
+      r0 = ev_padx(&p, MAXPK - 1, 0, &l);                       /* minimal size with an ample buffer */
+      if (r0 > 0) {
+         ev_padx(&p, r0 > p.len ? r0 : p.len + 1, 0, &l);        /* exact fit, not padded */
+         if (r0 - 1 > p.len) ev_padx(&p, r0 - 1, 0, &l);          /* one byte short */
+         ev_padx(&p, (r0 > p.len ? r0 : p.len + 1) + d, 1, &l);   /* padded to exactly new_len */
+         if (r0 - 1 > p.len) ev_padx(&p, r0 - 1, 1, &l);
+         if (hx_u(&r, 4) == 0) ev_padx(&p, p.len + 1 + (int)hx_u(&r, 40), (int)hx_u(&r, 2), &l);
+      } else ev_padx(&p, p.len + 1 + (int)hx_u(&r, 600), (int)hx_u(&r, 2), &l);
+      if (k == 1) ev_padx(&p, p.len, (int)hx_u(&r, 2), &l);
+      if (k == 2) ev_padx(&p, p.len - 1, 1, &l);
+      free_packet(&p);
+   }
+   free(l.store);
+}
+
 /* ---------- multistream ---------- */
 typedef struct { int S; pkt_t st[8]; int at[8]; unsigned char *b; int len; } ms_t;
 static void j_streams_in(const ms_t *m)
@@ -446,6 +562,7 @@ static void ms_describe(ms_t *m, int *fidctr)
 static void ms_cases(uint64_t seed, int n)
 {
    int it;
+   g_extbias = 1;
    for (it = 0; it < n; it++) {
       hx_rng r; ms_t m; int fidctr, s, pos = 0, new_len, k, ret, can, r2 = 0, same2 = 0, corrupted = 0; hx_buf o;
       r.s = seed + (uint64_t)it; g_exec = (long)(seed + (uint64_t)it);
@@ -547,9 +664,10 @@ int main(int argc, char **argv)
    if (!strcmp(cmd, "replay")) replay();
    else if (!strcmp(cmd, "random")) { for (i = 0; i < n; i++) { g_exec = (long)(seed + (uint64_t)i) - 1; random_exec(seed + (uint64_t)i); } }
    else if (!strcmp(cmd, "pad")) pad_cases(seed, n);
+   else if (!strcmp(cmd, "padx")) padx_cases(seed, n);
    else if (!strcmp(cmd, "ms")) ms_cases(seed, n);
    else if (!strcmp(cmd, "audio")) audio_cases(seed, n);
-   else { fprintf(stderr, "usage: hx_repack replay|random|pad|ms|audio seed n\n"); return 2; }
+   else { fprintf(stderr, "usage: hx_repack replay|random|pad|padx|ms|audio seed n\n"); return 2; }
    if (g_rp) opus_repacketizer_destroy(g_rp);
    live_clear();
    for (i = 0; i < MAXLIB; i++) free(g_lib[i].b);
